@@ -168,10 +168,15 @@ where
         round: Option<usize>,
         garbages: &mut Vec<(Event, Arc<Record<E>>)>,
         notifiers: &mut Vec<Notifier<Option<RawCacheEntry<E, S, I>>>>,
+        inflight_key: &mut Option<E::Key>,
     ) -> bool {
         let taken = self.inflights.lock().take(record.hash(), record.key(), round);
         match (taken, round) {
-            (Some(taken), _) => *notifiers = taken,
+            (Some((key, taken)), _) => {
+                // Dropped by the caller out of the lock critical section.
+                *inflight_key = Some(key);
+                *notifiers = taken;
+            }
             (None, None) => {}
             (None, Some(_)) => return false,
         }
@@ -624,10 +629,13 @@ where
     fn insert_inner(&self, record: Arc<Record<E>>, source: Source, round: Option<usize>) -> RawCacheEntry<E, S, I> {
         let mut garbages = vec![];
         let mut notifiers = vec![];
+        let mut inflight_key = None;
 
-        let inserted = self.inner.shards[self.shard(record.hash())]
-            .write()
-            .with(|mut shard| shard.emplace(record.clone(), round, &mut garbages, &mut notifiers));
+        let inserted = self.inner.shards[self.shard(record.hash())].write().with(|mut shard| {
+            shard.emplace(record.clone(), round, &mut garbages, &mut notifiers, &mut inflight_key)
+        });
+        // Deallocate the key of the taken in-flight round out of the lock critical section.
+        drop(inflight_key);
         if !inserted {
             // Not inserted; the returned entry still owns one reference.
             record.inc_refs(1);
@@ -1420,7 +1428,7 @@ where
                 let required_fetch = required_fetch_builder(ctx);
                 Try::SetStateAndContinue(RawFetchState::FetchRequired { required_fetch })
             }
-            FetchOrTake::Notifiers(notifiers) => Try::SetStateAndContinue(RawFetchState::Notify {
+            FetchOrTake::Notifiers(_key, notifiers) => Try::SetStateAndContinue(RawFetchState::Notify {
                 res: Some(res_no_fetch),
                 notifiers,
             }),
@@ -1454,8 +1462,10 @@ where
         key: &E::Key,
         inflights: &Arc<Mutex<InflightManager<E, S, I>>>,
     ) -> Try<E, S, I, C> {
-        let notifiers = match inflights.lock().take(hash, key, Some(id)) {
-            Some(notifiers) => notifiers,
+        // Bind first: the lock guard must be gone before the key of the removed round is dropped.
+        let taken = inflights.lock().take(hash, key, Some(id));
+        let notifiers = match taken {
+            Some((_key, notifiers)) => notifiers,
             None => {
                 return Try::Ready;
             }
@@ -1500,11 +1510,12 @@ where
             RawFetchState::Notify { .. } | RawFetchState::Ready => return,
             RawFetchState::Init { .. } | RawFetchState::FetchOptional { .. } | RawFetchState::FetchRequired { .. } => {}
         }
-        if let Some(notifiers) = this
+        // Bind first: the lock guard must be gone before the key of the removed round is dropped.
+        let taken = this
             .inflights
             .lock()
-            .take(*this.hash, this.key.as_ref().unwrap(), Some(*this.id))
-        {
+            .take(*this.hash, this.key.as_ref().unwrap(), Some(*this.id));
+        if let Some((_key, notifiers)) = taken {
             for notifier in notifiers {
                 let _ =
                     notifier
